@@ -37,6 +37,10 @@ import (
 // LoopCase is a script for RunLoop.
 type LoopCase struct {
 	In B `json:"in"`
+	// FromReader: the script is not run through RunLoop; the harness calls
+	// termexec.RunCommandFromReader once per command on the shared input, the way a caller that
+	// executes "the next command" of a stream does. Only scripts whose lines are all commands.
+	FromReader bool `json:"from_reader,omitempty"`
 	// Tail (optional): text appended after In that is the beginning of one more command and ends
 	// inside an unterminated double-quoted argument (In then ends with a newline and contains no
 	// take command). Splitting it "terminates with ... an error"; the loop must hand that error to
@@ -183,6 +187,20 @@ func loopModel(in string) (events []loopEvent, unknown bool, end int, ok bool) {
 	}
 }
 
+// plainLines: no continuation and no blank line (a blank line is no command for RunCommand).
+func plainLines(in string) bool {
+	if in == "" || strings.Contains(in, "\\\n") {
+		return false
+	}
+	lines := strings.Split(strings.TrimSuffix(in, "\n"), "\n")
+	for _, l := range lines {
+		if strings.Trim(l, " \t") == "" {
+			return false
+		}
+	}
+	return true
+}
+
 // loopReader is the shared input; it counts what has been handed out.
 type loopReader struct {
 	mu  sync.Mutex
@@ -231,7 +249,7 @@ type takeDeps struct {
 }
 
 // runLoopReal executes the script through the real RunLoop.
-func runLoopReal(in string) (events []loopEvent, loopErr error, scopeErrs int, consumed int, timedOut bool, setupErr error) {
+func runLoopReal(in string, fromReader int) (events []loopEvent, loopErr error, scopeErrs int, consumed int, timedOut bool, setupErr error) {
 	rd := &loopReader{s: in}
 	mapp, err := goatapp.NewMockupApp(goatapp.Params{IO: goatapp.IO{In: gio.NewAppInput(rd)}})
 	if err != nil {
@@ -342,7 +360,24 @@ func runLoopReal(in string) (events []loopEvent, loopErr error, scopeErrs int, c
 	)
 	rctx := termexec.NewRunCtx(termexec.RunCtxParams{Application: mapp, Ctx: mapp.IOContext(), Commands: commands})
 	done := make(chan error, 1)
-	go func() { done <- termexec.RunLoop(rctx, "") }()
+	go func() {
+		if fromReader > 0 {
+			// the caller reads command by command from the shared (unbuffered, non-ByteReader) input
+			for k := 0; k < fromReader; k++ {
+				eof, err := termexec.RunCommandFromReader(rctx, mapp.IOContext().IO().In())
+				if err != nil {
+					done <- fmt.Errorf("RunCommandFromReader call %d: %v", k, err)
+					return
+				}
+				if eof {
+					break
+				}
+			}
+			done <- nil
+			return
+		}
+		done <- termexec.RunLoop(rctx, "")
+	}()
 	select {
 	case loopErr = <-done:
 	case <-time.After(30 * time.Second):
@@ -391,7 +426,31 @@ func ExecLoop(c LoopCase) hx.Verdict {
 		return v
 	}
 	hx.PersistCurrent("loop", c)
-	got, loopErr, scopeErrs, consumed, timedOut, setupErr := runLoopReal(in)
+	fromReader := 0
+	if c.FromReader {
+		// one RunCommandFromReader call per command; only scripts of plain command lines
+		if badTail || unknown || !plainLines(in) {
+			v := hx.Pass()
+			v.Inconclusive = true
+			v.Label("invalid-case")
+			return v
+		}
+		for _, e := range want {
+			if e.Cmd == "sub" {
+				v := hx.Pass()
+				v.Inconclusive = true
+				v.Label("invalid-case")
+				return v
+			}
+		}
+		fromReader = len(want)
+		if fromReader == 0 {
+			v := hx.Pass()
+			v.Label("loop-case")
+			return v
+		}
+	}
+	got, loopErr, scopeErrs, consumed, timedOut, setupErr := runLoopReal(in, fromReader)
 	hx.ClearCurrent()
 	v := hx.Pass()
 	if setupErr != nil || timedOut {
@@ -471,6 +530,12 @@ func ExecLoop(c LoopCase) hx.Verdict {
 	}
 	if badTail {
 		labels["loop-input-ends-inside-quote"] = true
+	}
+	if c.FromReader {
+		labels["loop-command-by-command-from-reader"] = true
+		if len(want) >= 2 {
+			labels["loop-from-reader-second-command"] = true
+		}
 	}
 	if strings.Contains(in, "\\\n") {
 		labels["loop-continuation"] = true
